@@ -43,7 +43,7 @@ STUBS = ['coroutines are driven with send(None); uncontended asyncio locks never
          'sessions are attached to ConnectionState directly (login is C09)']
 OUTSIDE = ['maildir rescans', 'histories longer than the bound', 'more than two sessions']
 
-OPS = ['append', 'store_seen', 'delete', 'noop', 'fetch_body', 'copy_self', 'uidstore_flagged', 'move_seq']
+OPS = ['append', 'store_seen', 'delete', 'noop', 'fetch_body', 'copy_self', 'uidstore_flagged', 'move_seq', 'store_unseen']
 _g: dict = {}
 
 
@@ -60,12 +60,14 @@ def program(g, sim, base, m, script, check, oracle='both'):
         w.append(0)
     w.select(0)
     w.select(1)
+    for t in (0, 1):
+        w.fetch(t, [(1, '*')], [b'FLAGS'])      # the clients learn the flags (what they believe from now on)
     Seen, Deleted, Flagged = g['Seen'], g['Deleted'], g['Flagged']
     for op, s, a in script:
         # what the client means by sequence number a right now
         target = None
         known = False
-        if a is not None and op in ('store_seen', 'fetch_body', 'move_seq', 'delete'):
+        if a is not None and op in ('store_seen', 'store_unseen', 'fetch_body', 'move_seq', 'delete'):
             ents = w.clients[s].entries
             for i, e in enumerate(ents, 1):
                 if a == i:
@@ -79,6 +81,8 @@ def program(g, sim, base, m, script, check, oracle='both'):
             w.append(s)
         elif op == 'store_seen':
             w.store(s, [a], [Seen], 'ADD')
+        elif op == 'store_unseen':
+            w.store(s, [a], [Seen], 'DELETE')
         elif op == 'delete':
             w.store(s, [a], [Deleted], 'ADD', silent=True)
             w.expunge(s)
@@ -138,7 +142,7 @@ def _harness(m, d, ops, oracle='both'):
             s = eng.choose('s%d' % t, 2)
             op = ops[o]
             a = None
-            if op in ('store_seen', 'delete', 'fetch_body', 'copy_self', 'move_seq'):
+            if op in ('store_seen', 'store_unseen', 'delete', 'fetch_body', 'copy_self', 'move_seq'):
                 a = eng.fresh_int('a%d' % t, 1, m + d + 1, cls=SymUid)
             elif op == 'uidstore_flagged':
                 off = eng.fresh_int('a%d' % t, 0, m + d + 1)
@@ -161,11 +165,11 @@ def _harness(m, d, ops, oracle='both'):
 def harnesses(tier):
     from pysymex.runner import Harness
     if tier == 'quick':
-        cfgs = [(1, 3, ['store_seen', 'delete', 'noop', 'append']),
+        cfgs = [(1, 3, ['store_seen', 'store_unseen', 'delete', 'noop', 'append']),
                 (2, 2, OPS), (3, 2, ['delete', 'move_seq', 'store_seen'])]
     else:
-        cfgs = [(1, 4, ['store_seen', 'delete', 'noop', 'append', 'fetch_body']),
-                (2, 3, OPS), (2, 4, ['store_seen', 'delete', 'noop', 'append'])]
+        cfgs = [(1, 4, ['store_seen', 'store_unseen', 'delete', 'noop', 'append', 'fetch_body']),
+                (2, 3, OPS), (2, 4, ['store_seen', 'store_unseen', 'delete', 'noop', 'append'])]
     return [Harness('history[m=%d,d=%d,ops=%d]' % (m, d, len(ops)), _harness(m, d, ops),
                     {'initial_messages': m, 'history_depth': d, 'ops': ops, 'sessions': 2,
                      'sequence_numbers': '1..%d symbolic' % (m + d + 1), 'uid_base': 'unbounded'},
